@@ -166,6 +166,32 @@ func runMux(r *run) error {
 		// oracle (transparency): with the real buffer size, valid streams never crash and every
 		// successful read returns the next bytes of the concatenated data payloads
 		if bsz == realBsz {
+			// reference demultiplexer, written for the oracle only: the payload bytes of the data
+			// frames in front of the first frame that is neither data nor info (or is cut short)
+			var deliverable []byte
+			for rest := s; len(rest) >= 4; {
+				hd := binary.LittleEndian.Uint32(rest[:4])
+				tag, ln := int(hd>>24), int(hd&0xffffff)
+				if (tag != 7 && tag != 9) || ln > maxMsg || len(rest) < 4+ln {
+					break
+				}
+				if tag == 7 {
+					deliverable = append(deliverable, rest[4:4+ln]...)
+				}
+				rest = rest[4+ln:]
+			}
+			got := 0
+			for j, o := range obs {
+				if strings.HasPrefix(o, "ok:") {
+					end := got + sizes[j]
+					if end > len(deliverable) || o != "ok:"+hexOrDash(deliverable[got:end]) {
+						r.oracleFail(fmt.Sprintf("m%d", id), "a read returned bytes that are not payload of a data frame (the text of an error frame, or bytes behind a frame that must end the stream, reached the reader as data)",
+							map[string]any{"stream_hex": clipHex(s), "sizes": sizes, "read_index": j, "observed": o, "kind": kind})
+						break
+					}
+					got = end
+				}
+			}
 			pos := 0
 			for j, o := range obs {
 				if o == "crash" {
